@@ -14,7 +14,7 @@ from __future__ import annotations
 
 from typing import Any, List
 
-from .common import call, same, is_symbolic, PathAbort, mk_array
+from .common import call, same, is_symbolic, PathAbort, mk_array, replay_tiers
 from .c16 import FakeParameters
 
 PROP = "C11"
@@ -61,15 +61,42 @@ def make_reconstruct_harness(n: int, linear: bool, admittance: bool):
         beta = eng.real("beta", npy=True) if linear else 0
         ph = Phase(alpha, beta)
 
-        def quad(f, a=None, b=None, **kw):
+        # environment: at one (explored) point the quadrature demands a looser tolerance and more subdivisions than the defaults
+        # before it succeeds; it complains with scipy's IntegrationWarning messages; within the retry budget (9 retries) the
+        # loop must still obtain the integral
+        hard = eng.choice(n + 1, "hard_point")            # n: no point is hard
+        need_eps, need_lim = 1e-9, 100
+        if hard < n:
+            a_ = eng.choice(6, "looser_tolerance_steps")
+            b_ = eng.choice(5, "more_subdivision_steps")
+            for _ in range(a_):
+                need_eps *= 10
+            need_lim += 100 * b_
+
+        def quad(f, a=None, b=None, epsabs=1.49e-8, limit=50, **kw):
+            import warnings
+            from scipy.integrate import IntegrationWarning
+            if done[0] == hard:                            # the points are integrated in order, one success each
+                if limit < need_lim:
+                    warnings.warn("The maximum number of subdivisions (%d) has been achieved." % limit, IntegrationWarning)
+                    return (f.integral(a, b) + 1, 1.0)      # with the warning ignored the value is not converged
+                if epsabs < need_eps:
+                    warnings.warn("The occurrence of roundoff error is detected, which prevents the requested tolerance from being achieved.", IntegrationWarning)
+                    return (f.integral(a, b) + 1, 1.0)
+            done[0] += 1
             return (f.integral(a, b), 0.0)
+        done = [0]
         saved = (scipy.integrate.quad, zr.isnan)
         scipy.integrate.quad = quad
         try:
-            out, sm, ip = zr._reconstruct((mk_array(eng, xs), ph, ph.derivative(1), "none", "akima", admittance))
+            ok, res = call(zr._reconstruct, (mk_array(eng, xs), ph, ph.derivative(1), "none", "akima", admittance))
         finally:
             scipy.integrate.quad = saved[0]
         _nonvacuous(eng)
+        eng.check(ok, "the reconstruction completes when the quadrature succeeds within the retry budget", lambda: "hard point %r: %r" % (hard, res))
+        if not ok:
+            return
+        out, sm, ip = res
         pi = pi_val() if eng.symbolic else 3.141592653589793
         for i in range(n):
             want = 2 / pi * ph.integral(xs[0], xs[i]) + (-pi / 6) * beta
@@ -109,7 +136,7 @@ def make_weights_harness(n: int):
         called = []
 
         def minimize(fn, params, args=(), **kw):
-            called.append(1)
+            called.append((fn, params, args))
 
             class R:
                 pass
@@ -126,6 +153,23 @@ def make_weights_harness(n: int):
         eng.check(ok == valid, "weights without a positive entry or with a negative entry are refused", lambda: "kinds %r -> %r" % (kinds, val))
         if not ok:
             eng.check(isinstance(val, ZHITError) and not called, "refusal is a ZHITError raised before the minimiser runs")
+        else:
+            # the objective handed to the minimiser is the weighted sum over *all* points (those with weight 0 drop out by themselves)
+            eng.check(len(called) == 1, "the minimiser runs once")
+            if len(called) == 1:
+                fn, params, args = called[0]
+                params.add("offset", off)
+                ok2, got = call(lambda: fn(params, *args))
+                eng.check(ok2, "the objective handed to the minimiser can be evaluated", lambda: "%r" % (got,))
+                if ok2:
+                    tot, want = 0, 0
+                    for v in list(got.flat):
+                        tot = tot + v
+                    for i in range(n):
+                        d = rec[i] + off - lnm[i]
+                        want = want + ws[i] * d * d
+                    eng.check(same(tot, want), "the offset is fitted to every point with a non-zero weight (objective = sum of weight * (reconstruction + offset - ln|X|)^2)",
+                              lambda: "kinds %r: %r vs %r" % (kinds, tot, want))
         eng.reached("weights")
     return harness
 
@@ -193,8 +237,9 @@ def obligations(tier: str):
     import pyimpspec.analysis.zhit.reconstruction as zr
     import pyimpspec.analysis.zhit.offset as zo
     obs = []
-    n = 3 if tier == "quick" else 4
-    stubs = ["scipy.integrate.quad returns the exact integral of the given phase function; the interpolating spline is that function",
+    n = 3 if tier == "quick" else 6
+    stubs = ["scipy.integrate.quad returns the exact integral of the given phase function; the interpolating spline is that function; at one explored point quad "
+             "first demands up to 5 tenfold looser tolerances and up to 4 x 100 more subdivisions (IntegrationWarning with scipy's messages) before it succeeds",
              "lmfit.minimize replaced by the weighted least-squares offset it minimises; cmath.rect(r, phi) = r * cis(phi) with cis uninterpreted; "
              "exp(a + ln c) = c exp(a) and ln|cX| = ln|X| + ln c instantiated on the terms that occur"]
     for adm in (False, True):
@@ -222,7 +267,7 @@ OUTSIDE = ["the smoothing kernels (modified sinc, Whittaker-Henderson, Savitzky-
 
 def replay(obligation: str, witness):
     from sx.concrete import run_concrete
-    for tier in ("thorough", "quick"):
+    for tier in replay_tiers():
         for ob in obligations(tier):
             if ob.name == obligation:
                 reproduced, msg, _ = run_concrete(ob.harness, witness)
